@@ -69,6 +69,16 @@ Theorem C12_to_annotation_round_trip : forall eps t u m g, wf eps t -> gen_ok g 
     a_uri r = u /\ a_modality r = m.
 Proof. exact to_annotation_spec. Qed.
 
+(* track iteration - hence RTTM / LAB output - is chronological: segments never decrease along it *)
+Theorem C12_iteration_is_chronological : forall eps m, WF eps m ->
+  StronglySorted sle (map (fun x : triple => fst (fst x)) (itertracks_m m)).
+Proof. exact itertracks_chronological. Qed.
+Theorem C12_rttm_one_line_per_track_in_chronological_order : forall eps scale a ls, WF eps (a_tracks a) ->
+  rttm_lines eps scale a = Some ls ->
+  List.length ls = List.length (itertracks a) /\
+  StronglySorted sle (map (fun x : triple => fst (fst x)) (itertracks a)).
+Proof. exact rttm_lines_chronological. Qed.
+
 Example C12_nonvacuous :
   let a := ann_of 0 (Some "u"%string) None [((0, 4), NStr "x", NStr "a"); ((0, 4), NInt 0, NStr "b")] in
   let b := ann_of 0 None (Some "m"%string) [((0, 4), NInt 0, NStr "b"); ((0, 4), NStr "x", NStr "a")] in
@@ -93,3 +103,5 @@ Print Assumptions C12_lab_refused_iff_space_in_label.
 Print Assumptions C12_uem_refused_iff_space_in_uri.
 Print Assumptions C12_uem_one_line_per_segment.
 Print Assumptions C12_to_annotation_round_trip.
+Print Assumptions C12_iteration_is_chronological.
+Print Assumptions C12_rttm_one_line_per_track_in_chronological_order.
